@@ -127,6 +127,44 @@ func (g *cityGen) freeID(t b6.FeatureType) (b6.FeatureID, bool) {
 	return b6.FeatureID{}, false
 }
 
+// twinRingOps returns three additions that build an area over a ring that is
+// closed by position only: a new point at exactly the position of an
+// existing grid point, a path from that grid point round a rectangle to the
+// new point, and an area over the path. b6 calls such a path open (its ends
+// are different points) but lets an area stand on it (its ends coincide).
+// With cw the ring runs clockwise and the area must be refused.
+func (g *cityGen) twinRingOps(cw bool) []op {
+	twin, ok1 := g.freeID(b6.FeatureTypePoint)
+	pid, ok2 := g.freeID(b6.FeatureTypePath)
+	aid, ok3 := g.freeID(b6.FeatureTypeArea)
+	c := g.randRect()
+	first := g.specs[pointID(c[0])]
+	if !ok1 || !ok2 || !ok3 || first == nil {
+		return nil
+	}
+	for _, i := range c {
+		if g.specs[pointID(i)] == nil {
+			return nil
+		}
+	}
+	order := []int{c[0], c[1], c[2], c[3]}
+	why := ""
+	if cw {
+		order = []int{c[0], c[3], c[2], c[1]}
+		why = "area over a clockwise ring that is closed by a second point at its first vertex's position"
+	}
+	path := &fspec{ID: pid}
+	for _, i := range order {
+		path.Path = append(path.Path, pathMember{Point: i})
+	}
+	path.Path = append(path.Path, pathMember{Point: int(twin.Value) - 1})
+	return []op{
+		{Kind: "add", Spec: &fspec{ID: twin, Lat: first.Lat, Lng: first.Lng}},
+		{Kind: "add", Spec: path},
+		{Kind: "add", Spec: &fspec{ID: aid, AreaPaths: [][]b6.FeatureID{{pid}}, AreaRings: [][]int{nil}}, Invalid: why},
+	}
+}
+
 // pathsUsedByAreas returns closed paths that some area refers to.
 func (g *cityGen) pathsUsedByAreas() []b6.FeatureID {
 	seen := map[b6.FeatureID]bool{}
